@@ -52,7 +52,12 @@ func (it *Iterator) Valid() bool {
 
 // Key 返回当前位置的 key
 func (it *Iterator) Key() []byte {
-	return it.indexIter.Key()
+	// 索引迭代器返回的可能是索引自身持有的 key 切片, 调用方改写它会破坏索引, 须返回副本
+	key := it.indexIter.Key()
+	if key == nil {
+		return nil
+	}
+	return append([]byte{}, key...)
 }
 
 // Value 返回当前位置 key 对应的实际 value
